@@ -280,6 +280,7 @@ func vsFlushExec(sc vsFlScn, ch vsChooser) (string, *vsSched) {
 		return e.chanOf(x)
 	}
 	s.kernel = r.kernel
+	e.fp.ctlPoint = true
 	s.spawn("flusher", "flusher", false, nil, func() {
 		for i, cl := range sc.calls {
 			s.point("flusher.call")
